@@ -141,6 +141,24 @@ def upstreamUrl (esh : SlashHandling) (be : BackendCfg) (q : ReqView) (rawQuery 
       | some r => String.ofList (removeParams r.stripQ rawQuery.toList)
       | none => rawQuery }
 
+/-! ## What the proxy writes to the upstream connection
+
+`proxy.requestContext.Finalize` hands the URL of `Backend.CreateURL` to `httputil.ReverseProxy` through the `Rewrite`
+hook `rewriteRequest` (`proxyReq.Out.URL = targetURL`: the URL of the outgoing request IS the URL the rule computed,
+nothing of the URL of the received request survives).  `net/http`'s transport writes `Out.URL.RequestURI()` into the
+request line: the escaped path (`/` for an empty one), and `?` + the raw query when there is one (the rule's URL never
+has `ForceQuery`).  It speaks the schemes `http` and `https` only. -/
+
+/-- `(*url.URL).RequestURI` of the URL handed to the proxy (no opaque part, no `ForceQuery`) -/
+def requestTarget (u : UpUrl) : String :=
+  (if u.path.isEmpty then "/" else u.path) ++ (if u.query.isEmpty then "" else "?" ++ u.query)
+
+/-- the schemes `http.Transport` speaks; for any other one nothing is written to any upstream -/
+def transportSpeaks (scheme : String) : Bool := scheme == "http" || scheme == "https"
+
+/-- the part of a request target that is the path: everything before the first `?` -/
+def targetPath (t : String) : List Char := t.toList.takeWhile (· ≠ '?')
+
 /-! ## The two constructors of the request view -/
 
 /-- `requestcontext.New` behind `net/http`'s server: `(RawPath, Path)` for the path of the request line as received;
